@@ -1742,6 +1742,33 @@ MUTANTS += [
 ]
 
 
+_DMC_FILTER = ("      attrs = [a for a in attrs if a.name not in ('name', 'class')\n"
+               "               and not a.facets.get('nodefault')]\n")
+_TABLE_FILTER = ("      attrs = [a for a in attrs\n               if a.name not in ('name', 'class')\n"
+                 "               and not a.facets.get('nodefault')]\n")
+_XSD_FILTER = ("      attrs = [a for a in attrs\n               if a.name not in ('name', 'class')\n"
+               "               and not a.facets.get('nodefault')]\n")
+_DEFAULTABLE_FN = ("def _defaultable(attr):\n  if attr.name == 'name':\n    return False\n  if attr.name == 'class':\n    return False\n"
+                   "  return not attr.facets.get('nodefault')\n\n\n")
+
+MUTANTS += [
+    # R-PROJECT-AGREE: the default-context projections of the generators are one predicate
+    {"id": "dmcontrol-projection-by-kind", "expect": ("R-PROJECT-AGREE", "generate_dmcontrol._Emitter.emit_element:default-projection"),
+     "edits": [(DMC_PY, _DMC_FILTER, "      attrs = [a for a in attrs if a.type != 'id'\n               and not (a.type == 'ref' and a.target == 'default')\n"
+                "               and not a.facets.get('nodefault')]\n")]},
+    {"id": "dmcontrol-projection-keeps-class", "expect": ("R-PROJECT-AGREE", "generate_dmcontrol._Emitter.emit_element:default-projection"),
+     "edits": [(DMC_PY, _DMC_FILTER, "      attrs = [a for a in attrs if a.name != 'name'\n               and not a.facets.get('nodefault')]\n")]},
+    {"id": "table-projection-drops-childclass", "expect": ("R-PROJECT-AGREE", "generate_mjcf_table.generate.visit:default-projection"),
+     "edits": [(TABLE_PY, _TABLE_FILTER, "      attrs = [a for a in attrs\n               if a.name not in ('name', 'class', 'childclass')\n"
+                "               and not a.facets.get('nodefault')]\n")]},
+    {"id": "ctl-table-projection-through-helper", "expect": None,
+     "edits": [(TABLE_PY, "def generate(", _DEFAULTABLE_FN + "def generate("),
+               (TABLE_PY, _TABLE_FILTER, "      attrs = [a for a in attrs if _defaultable(a)]\n")]},
+    {"id": "ctl-dmcontrol-projection-reordered", "expect": None,
+     "edits": [(DMC_PY, _DMC_FILTER, "      attrs = [a for a in attrs if not a.facets.get('nodefault')\n               and a.name != 'class' and a.name != 'name']\n")]},
+]
+
+
 _EC_DEF = "def _element_constraints(schema, element):\n  \"\"\"Element's own constraints plus those of transitively used groups.\"\"\"\n"
 _EC_RENAMED = "def _collect_constraints(schema, element):\n  \"\"\"Element's own constraints plus those of transitively used groups.\"\"\"\n"
 
